@@ -152,12 +152,25 @@ def _run_verus_unit(u, tier):
     failed = {}
     canary_failed = set()
     unlabelled_in_block = {}
+    try:
+        closure_base = json.load(open(os.path.join(u['dir'], 'closures.json')))
+    except Exception:
+        closure_base = {}
     for f in r.failures:
         if f['label'] and f['label'].startswith('CANARY.'):
             canary_failed.add(f['label'])
             continue
         if f['block'] and '__canary_' in f['block']:
             # a different failure inside a canary copy: the original reports it too
+            continue
+        if f['block'] and gen.bare_closures.get(f['block'], 0) > closure_base.get(f['block'], 0):
+            # the function now contains a closure the unit has no contract for: Verus knows
+            # nothing about its result, so this failure means "needs contract", not "bug"
+            res['undecided'] = res['undecided'] or (
+                'function %s contains %d closure(s) without a contract (%d when its contract was written); '
+                'failed obligation %s cannot be attributed to the code' % (
+                    f['block'], gen.bare_closures.get(f['block'], 0), closure_base.get(f['block'], 0),
+                    f['label'] or f['message']))
             continue
         name = f['label'] or '%s::%s::%s' % (u['name'], f['block'] or '<unit>', f['message'])
         props = label_props(f['label']) if f['label'] else (f['serves'] or u.get('serves', []))
@@ -209,8 +222,12 @@ def run_verus_unit(u, tier):
         from . import replay
         res['fallback_replay'] = []
         seen = []
+        kf_programs = set(k['witness'].split('/')[-1].replace('.rs', '') for k in known_findings() if k.get('witness'))
         for w in u['witnesses']:
             if w['cmd'] in seen:
+                continue
+            if w['cmd'][0] in kf_programs:
+                # the witness of a recorded known finding fails on the unchanged tree by design
                 continue
             seen.append(w['cmd'])
             props = w.get('props', u.get('serves', []))
